@@ -455,10 +455,11 @@ class G:
 
     def custom(self, hist=False, bad=None, fam=None):
         r = self.r
-        FAM = [(242, 12, True), (199, 4, False), (207, 8, True), (0, 16, True), (255, 12, True), (192, 28, True), (242, 20, True)]
+        FAM = [(242, 12, True, 31), (199, 4, False, 31), (207, 8, True, 31), (0, 16, True, 31), (255, 12, True, 31), (192, 28, True, 31),
+               (242, 20, True, 31), (210, 8, True, 20), (211, 4, False, 16)]
         if fam is None:
-            fam = r.randrange(7)
-        pt, mn, hs = FAM[fam]
+            fam = r.randrange(9)
+        pt, mn, hs, maxc = FAM[fam]
         fixed = 8 if hs else 4
         need = max(0, mn - fixed)
         plen = need + 4 * (r.randrange(0, 3) if r.random() < 0.8 else r.randrange(0, 40))
@@ -468,9 +469,9 @@ class G:
         s = []
         if plen or r.random() < 0.5:
             s.append({"c": "payload", "v": self.bytes_(plen)})
-        cnt = r.choice([0, 1, 31]) if r.random() < 0.6 else r.randrange(32)
+        cnt = r.choice([0, 1, maxc]) if r.random() < 0.6 else r.randrange(maxc + 1)
         if bad == "count":
-            cnt = r.choice([32, 255])
+            cnt = r.choice([maxc + 1, 32, 255])
         if cnt or r.random() < 0.3:
             s.append({"c": "count", "v": cnt})
         pad = self.padding(bad != "padding")
